@@ -525,6 +525,8 @@ def py_oracle(script, plain, orc):
 
 
 def run(ctx):
+    # one script takes 0.05-0.5 s; the limit is generous for a machine at load 100, a hang is a result (rc 124)
+    TMO = 90 if ctx.tier == "quick" else 300
     h = ctx.harness("c16")
     d = ctx.driver("drv_c16")
     fails, samples = [], []
@@ -545,7 +547,7 @@ def run(ctx):
     def one(sc):
         script, name = sc
         meta = meta_of(script)
-        rc, impl, err = ctx.run_lines(h, script)
+        rc, impl, err = ctx.run_lines(h, script, timeout=TMO)
         f = None
         if rc != 0:
             f = {"kind": "crash", "what": "resize: harness exit %d" % rc, "script": script.splitlines(),
@@ -559,7 +561,7 @@ def run(ctx):
                  "impl": impl[-40:]}
         model = []
         if ctx.driver_ok:
-            rc2, model, err2 = ctx.run_lines(d, script)
+            rc2, model, err2 = ctx.run_lines(d, script, timeout=TMO)
             i = common.first_diff(plain, model)
             if f is None and (rc2 != 0 or i is not None):
                 ops = [l for l in script.splitlines() if l.strip() and not l.startswith("#")]
@@ -571,7 +573,17 @@ def run(ctx):
             out.append(f)
         return impl, model, out
 
-    results = common.pmap(one, scripts)
+    # in chunks, corpus first: a change that makes the code crash or hang on most inputs is reported
+    # after the first chunk instead of after thousands of (timed-out) runs
+    results = []
+    nbad = 0
+    for k in range(0, len(scripts), 56):
+        part = common.pmap(one, scripts[k:k + 56])
+        results += part
+        nbad += sum(1 for (_i, _m, fl) in part for f in fl if f["kind"] in ("crash", "oracle"))
+        if nbad >= 8:
+            break
+    scripts = scripts[:len(results)]
     seen = set()
     for (script, name), (impl, model, fl) in zip(scripts, results):
         for f in fl:
